@@ -46,13 +46,14 @@ DESCRIBE = {
     "primitives": "model primitives vs Python builtins: digitsOf = str, natOfDigits = int, character classes = str.isspace / regex classes / str.upper on ASCII",
 }
 RULE = ("parse_region_string: EVERY string of length <= 6 (quick) / <= 7 (thorough) over the 12 characters `c 1 0 5 , . - : k M x space` "
-        "and every string of length <= 5 / <= 6 over the 11 characters `1 - : \\n \\t space x K . \\x1c \\r`; parse_humanized and numerals "
-        "inside a region: EVERY string of length <= 6 / <= 7 over the 11 characters `1 0 5 , . k M G b x space`; parse_cooler_uri: every "
-        "string of length <= 9 / <= 11 over `a / : .`; plus seeded grammars: well-formed regions (values up to 2^62, units in every "
-        "case spelling, fractions up to the unit's digits, a fixed corpus of float-inexact numerals 1.005k 4.35k 0.29M 8.7k ...), "
-        "malformed strings by class, format->parse round trips, parse_region against size tables, URI spellings. "
-        "A sweep case is one chunk of <= 1885 strings (prefix + all suffixes); non-trivial = every chunk / grammar case with a unit, "
-        "fraction or comma; distinct by canonical JSON")
+        "(3.3e6 / 3.9e7 strings) and every string of length <= 5 / <= 6 over the 11 characters `1 - : \\n \\t space x K . \\x1c \\r`; "
+        "parse_humanized and numerals inside a region: EVERY string of length <= 6 / <= 7 over the 11 characters `1 0 5 , . k M G b x space`; "
+        "the nested tokenizer on the first alphabet up to length 5 / 6 and on the second up to 5 / 6; parse_cooler_uri: every string of length <= 9 / <= 11 over `a / : .`; "
+        "plus seeded grammars: well-formed regions (values up to 2^62, units in every case spelling, fractions up to the unit's digits, "
+        "a fixed corpus of float-inexact numerals 1.005k 4.35k 0.29M 8.7k ...), malformed strings by class, format->parse round trips, "
+        "parse_region against size tables (dict and Series), region strings through Cooler.extent/bins().fetch on a 1-bp-bin cooler, "
+        "URI spellings. A sweep case is one chunk of <= 1885 strings (prefix + all suffixes of length 3); non-trivial = every chunk / "
+        "grammar case with a unit or comma; distinct by canonical JSON")
 EXHAUSTIVE = {"quick": True, "thorough": True}
 TRUSTED = ["Python `re` (finditer/split semantics), `str.split/strip/upper/replace`, `int()` and `decimal.Decimal` are primitives "
            "whose behaviour the hand-written scanner/number model restates; the exhaustive sweeps are what ties them together",
@@ -752,11 +753,14 @@ def escalate(name, case, rng):
         cands += [("region_sweep", {"strings": ss[:2000]})]
     elif name == "uri_sweep_unit":
         for s in ss[:50]:
-            for i in range(len(s) + 1):
-                f, g = s[:i], s[i:]
-                if "::" in f + ":" or "::" in g or g.startswith("/"):
+            for i in range(len(s) - 1):
+                if s[i:i + 2] != "::":
+                    continue
+                f, g = s[:i], s[i + 2:].lstrip("/")
+                if "::" in f + ":" or "::" in g:
                     continue
                 cands.append(("uri", {"file": f, "group": g, "third": None}))
+        cands += [("uri", {"file": f, "group": g, "third": None}) for f in URI_FILES if not f.endswith(":") for g in URI_GROUPS]
     elif name == "errclass_unit":
         return None
     cands += list(itertools.islice(grammar_cases(rng, 3000), 6000))
